@@ -41,7 +41,71 @@ def array_name(wp, node):
         v = wp.ev(n)
         if v.s == 'Array':
             return v.t
+    if n.get('kind') == 'InitListExpr' and array_len(n.get('type', {})) is not None:
+        return aggregate_array(wp, n).t
     raise Unsupported(f'{wp.name}: array expression of kind {n.get("kind")}')
+
+
+def aggregate_array(wp, n):
+    """aggregate initialisation of a std::array<integer, N> from a braced list (`tensor_dims_t<N>{{a, b}}`, `({{sizes...}})`):
+    [dcl.init.aggr] element k is initialised from the k-th initialiser (converted to the element type: an obligation when it
+    narrows), the remaining elements are value-initialised (0).  The result is a fresh python-level array value.
+    clang prints a short list as `array_filler: [<filler>, init_0, init_1, ..]` and a full one as `inner: [init_0, ..]`"""
+    N = array_len(n['type'])
+    lst = n
+    inner = lst.get('inner', [])
+    if 'array_filler' not in lst and len(inner) == 1 and inner[0].get('kind') == 'InitListExpr':
+        lst = inner[0]                                                   # the braces of the wrapped C array
+    if 'array_filler' in lst:
+        items = list(lst['array_filler'][1:])
+    else:
+        items = list(lst.get('inner', []))
+    if N is None or len(items) > N:
+        raise Unsupported(f'{wp.name}: braced list of {len(items)} initialisers for {n.get("type", {}).get("qualType")}')
+    wp.aggr_count = getattr(wp, 'aggr_count', 0) + 1
+    name = f'aggr#{wp.aggr_count}'
+    wp.env[name] = V(name, 'Array', N)
+    for k in range(N):
+        if k < len(items):
+            v = wp.conv(wp.ev(items[k]), 'Int', 'long', items[k])
+            wp.env[f'{name}.{k}'] = V(v.t, 'Int', 'long')
+        else:
+            wp.env[f'{name}.{k}'] = V('0', 'Int', 'long')
+    wp.note('aggregate initialisation of std::array')
+    return wp.env[name]
+
+
+def aggr_hook(wp, n):
+    """expression hook: a braced list (or a copy / move construction from one) that initialises a std::array<integer, N>"""
+    if n.get('kind') == 'InitListExpr' and array_len(n.get('type', {})) is not None:
+        return aggregate_array(wp, n)
+    return None
+
+
+def h_std_copy(wp, n, args, callee):
+    """std::copy(first, last, out) between modelled std::arrays (iterators at constant positions): element first + k is copied
+    to out + k for k in [0, last - first), in that order; returns out + (last - first).  [alg.copy] preconditions are obligations:
+    [first, last) is a valid range, the destination range [out, out + (last - first)) lies inside the destination array, and out
+    is not inside [first, last)"""
+    first, last, out = wp.ev(args[0]), wp.ev(args[1]), wp.ev(args[2])
+    if first.s != 'Iter' or last.s != 'Iter' or out.s != 'Iter' or first.c != last.c:
+        raise Unsupported(f'{wp.name}: std::copy over an unmodelled range')
+    lo, hi, o = int(first.t), int(last.t), int(out.t)
+    if lo > hi:
+        wp.oblige('std::copy: first <= last (a valid range)', 'false', n)
+        hi = lo
+    cnt = hi - lo
+    room = wp.env[out.c].c - o
+    if cnt > room:
+        wp.oblige('std::copy: the destination range lies inside the destination array', 'false', n)
+        cnt = room
+    if out.c == first.c and lo <= o < hi:
+        wp.oblige('std::copy: the output iterator is not inside [first, last)', 'false', n)
+    vals = [wp.env[f'{first.c}.{lo + k}'] for k in range(cnt)]
+    for k, v in enumerate(vals):
+        wp.env[f'{out.c}.{o + k}'] = V(v.t, 'Int', 'long')
+    wp.note('std::copy between std::arrays (exact)')
+    return V(str(o + cnt), 'Iter', out.c)
 
 
 def h_std_get(wp, n, args, callee):
@@ -180,6 +244,7 @@ def h_std_accumulate(wp, n, args, callee):
 
 STD_ARRAY_MEMBERS = [(r'^c?begin\|(const )?std::array', h_array_iter(False)), (r'^c?end\|(const )?std::array', h_array_iter(True))]
 STD_NUMERIC_CALLS = [(r'^accumulate\|', h_std_accumulate)]
+STD_COPY_CALLS = [(r'^copy\|', h_std_copy)]
 
 
 class IdEnvWP(WP):
